@@ -25,6 +25,16 @@
 (*             the same template is placed for the same particle list:      *)
 (*             place[i] = number of container voxels that differ from the   *)
 (*             float64 container;  stamped = voxels stamped at all          *)
+(*  "grey"     placement of a grey-valued template at generic orientations:   *)
+(*             Place = stamp the ROTATED, then THRESHOLDED template.        *)
+(*             single_list = container voxels that differ between the       *)
+(*             single-template and the one-template-per-particle form;      *)
+(*             single_rot[i] / list_rot[i] = voxels of particle i's window  *)
+(*             (MapGeom!WStart) that differ from rotate(template, R_i) cut  *)
+(*             at the threshold, plus stamped voxels outside that window    *)
+(*  args_ok    (rotblob, grey) the caller's array arguments - reused for    *)
+(*             the following calls - are bit for bit unchanged: MapGeom's   *)
+(*             actions leave inp unchanged (C14_InputsUntouched)            *)
 (* Interpolation accuracy is not decided, only bounded: the thresholds are *)
 (* constants of the configuration (DESIGN section 4, C14).                 *)
 (***************************************************************************)
@@ -43,7 +53,15 @@ vars == <<tid, l, ok, clause>>
 
 Events == Traces[tid].ev
 
-RotFailing(e) == IF e.com < 0 \/ e.com > ComTol THEN "C14_ActiveConvention"
+GreyFailing(e) == IF ~e.args_ok THEN "C14_InputsUntouched"
+                  ELSE IF e.single_list # 0 THEN "C14_TemplateFormsAgree"
+                  ELSE IF \E i \in DOMAIN e.single_rot : e.single_rot[i] # 0 THEN "C14_PlaceIsRotateThenThreshold"
+                  ELSE IF \E i \in DOMAIN e.list_rot : e.list_rot[i] # 0 THEN "C14_PlaceIsRotateThenThreshold"
+                  ELSE IF e.stamped <= 0 THEN "C14_PlaceStamps"
+                  ELSE "none"
+
+RotFailing(e) == IF ~e.args_ok THEN "C14_InputsUntouched"
+                 ELSE IF e.com < 0 \/ e.com > ComTol THEN "C14_ActiveConvention"
                  ELSE IF e.back < BackMin THEN "C14_InverseRestores"
                  ELSE "none"
 
@@ -58,6 +76,7 @@ DtypeFailing(e) == IF \E i \in DOMAIN e.rot : e.rot[i] < 0 \/ e.rot[i] > DtypeTo
 
 Failing(e) == CASE e.kind = "rotblob" -> RotFailing(e)
                 [] e.kind = "dtype" -> DtypeFailing(e)
+                [] e.kind = "grey" -> GreyFailing(e)
                 [] e.kind = "sym" -> SymFailing(e)
 
 TraceInit == /\ tid \in 1..Len(Traces)
